@@ -218,14 +218,18 @@ P("C08", ["LC.Props.C08"], [TOK, v2run("TestVerifC08")],
   "tied to Go by the `tok` correspondence incl. an alignment stream around bytes 1016-1028 and 2040-2052.",
   ["StableTail: the input does not END inside a multi-byte UTF-8 sequence", "io.ReadFull contract"], regen=ALLGEN)
 
-P("C09", ["LC.Props.C09"], [MATCH, v2run("TestVerifC09", race=True, timeout=1800)],
+P("C09", ["LC.Props.C09", "LC.Props.C09Footprint"], [MATCH, v2run("TestVerifC09", race=True, timeout=1800)],
   "8 (quick) / 64 (thorough) goroutines calling Match/MatchFrom on one classifier over exact/edited/scenario inputs under the "
   "race detector; results compared with sequential results; deep snapshot (tokens, runes incl. spare capacity, checksums, "
   "dictionary sizes) of the corpus before/after. distinct = verdict kind; non-trivial = all",
   "PARTIAL: readonly_no_race / readonly_reads_initial prove, for every number of threads and every interleaving, that read-only "
-  "sharing is race free and every read sees the initial state; that Match's footprint on the corpus IS read-only (incl. inside "
-  "go-diff) is monitored, not proved: snapshot + race detector on executed schedules. The Go memory model is outside the model.",
-  ["the code's footprint on shared state is read-only (monitored)", "race detector sees executed schedules only"], regen=ALLGEN)
+  "sharing is race free and every read sees the initial state; that Match's footprint on the corpus IS read-only is tied to the "
+  "source by a regenerated static footprint (functions reachable from match, their write sites on shared types, package-level "
+  "variables, normalize/updateDict arguments and the guards of dictionary.add) that must equal a reviewed expectation "
+  "(footprint_current, match_does_not_update_dict, write_targets) and is otherwise monitored: snapshot + race detector on "
+  "executed schedules. Writes inside go-diff and the Go memory model are outside the model.",
+  ["the reviewed footprint LC/Spec/FootprintExpect (hand-maintained) is what the static tie compares with",
+   "race detector sees executed schedules only"], regen=ALLGEN + ["v2footprint"])
 
 P("C10", ["LC.Props.C03WF", "LC.Props.C08"], [TOK, MATCH, v2run("TestVerifC10")],
   "Match, MatchFrom, Normalize, AddContent on the malformed stream and on structure-aware mutations of license texts, for "
